@@ -57,7 +57,8 @@ func runServeCase(c svCase, bin, tmp string) map[string]interface{} {
 	if c.TLS == "static" {
 		pc.TLS, pc.CertPEM, pc.KeyPEM = "static", stCert, stKey
 	}
-	sockDir := filepath.Join(tmp, c.Name+".sock")
+	// (directory names with characters a careless formatter would interpret)
+	sockDir := filepath.Join(tmp, c.Name+[]string{".sock", ".so%20ck", ".100%sure", ".s%v", ".sock"}[len(c.Name)%5])
 	os.MkdirAll(sockDir, 0o755)
 	evlog := filepath.Join(tmp, c.Name+".events")
 	pc.EventLog = evlog
